@@ -167,6 +167,21 @@ func c11Judge(res *engine.Result, in []byte, class int, id byte, p *ref.PES, dat
 			res.Failf(pre+"DTS-value", "stream id %#x: DTS()=%#x want %#x", id, got, p.DTS)
 		}
 	}
+	// ... also when the buffer is reused BEFORE the first getter is called (a header that decodes lazily)
+	if len(in) <= len(keep) {
+		var buf2 [320]byte
+		in2 := buf2[:copy(buf2[:], in)]
+		if h2, err2 := pes.NewPESHeader(in2); err2 == nil && h2 != nil {
+			for i := range in2 {
+				in2[i] ^= 0x5A
+			}
+			if h2.StreamId() != id || h2.PacketStartCodePrefix() != 1 || h2.DataAligned() != p.Aligned || h2.HasPTS() != wantPTS || h2.HasDTS() != wantDTS ||
+				(wantPTS && h2.PTS() != p.PTS) || (wantDTS && h2.DTS() != p.DTS) {
+				res.Failf(pre+"values-read-from-the-source-buffer-after-construction", "stream id %#x: the source bytes were overwritten right after NewPESHeader; the first getters then report id %#x pts %#x dts %#x (encoded: pts %#x dts %#x)",
+					id, h2.StreamId(), h2.PTS(), h2.DTS(), p.PTS, p.DTS)
+			}
+		}
+	}
 	// The decoded header describes the bytes it was decoded from: its scalar values must not follow the
 	// caller's buffer when that buffer is reused for the next packet (Data() is a view and is exempt).
 	if len(in) <= len(keep) {
@@ -179,6 +194,29 @@ func c11Judge(res *engine.Result, in []byte, class int, id byte, p *ref.PES, dat
 				id, h.StreamId(), h.PTS(), h.DTS(), p.PTS, p.DTS)
 		}
 		copy(in, keep[:n])
+	}
+}
+
+// c11JudgeCut: the buffer ends inside the optional header (its remainder comes with the next transport
+// packet) but behind the timestamps: the header start is well-formed and the timestamp fields are all
+// there, so their presence and values are judged; Data() is not.
+func c11JudgeCut(res *engine.Result, in []byte, id byte, p *ref.PES) {
+	need := 14
+	if p.PTSDTS == 3 {
+		need = 19
+	}
+	if p.PTSDTS < 2 || len(in) < need {
+		return
+	}
+	res.Evals++
+	h, err := pes.NewPESHeader(in)
+	pre := "NewPESHeader|id-with-optional-header," + c11TSName[p.PTSDTS] + ",buffer-ends-inside-the-header-behind-the-timestamps|"
+	if err != nil || h == nil {
+		res.Failf(pre+"error", "stream id %#x, %d of %d header bytes: %v", id, len(in), 9+int(in[8]), err)
+		return
+	}
+	if !h.HasPTS() || h.PTS() != p.PTS || h.HasDTS() != (p.PTSDTS == 3) || (p.PTSDTS == 3 && h.DTS() != p.DTS) {
+		res.Failf(pre+"timestamps", "stream id %#x, %d of %d header bytes: HasPTS %v PTS %#x HasDTS %v DTS %#x, encoded PTS %#x DTS %#x", id, len(in), 9+int(in[8]), h.HasPTS(), h.PTS(), h.HasDTS(), h.DTS(), p.PTS, p.DTS)
 	}
 }
 
@@ -264,6 +302,7 @@ func c11CheckShapes(c c11ShapeCase) engine.Result {
 								if pl == 0 && ppl == -1 && st == 0 && class == c11Optional {
 									for cut := 0; cut < dataAt; cut++ {
 										c11NoPanic(&res, in[:cut])
+										c11JudgeCut(&res, in[:cut:cut], id, &p)
 									}
 									res.Event("truncated-headers-executed-not-judged")
 								}
@@ -599,7 +638,7 @@ func init() {
 		Scenarios: []engine.ScenarioRunner{
 			&engine.Enum[c11ShapeCase]{
 				Name: "header-shapes",
-				Rule: "case = stream_id (all 256) x low six bits of the first flag byte (scrambling, priority, alignment, copyright, original: 6 patterns, thorough 36); Check builds every combination of PTS_DTS_flags {00,10,11} x timestamp pairs (7 boundary pairs, thorough 12) x other optional fields {none, ESCR+ES_rate+trick+copy_info+CRC+extension} (thorough: also each field alone and 3 extension variants) x header stuffing {0,1,2,3, up to PES_header_data_length 255} x payload {0,1,5 bytes} x PES_packet_length {consistent, 0, 0xFFFF}; ids with optional header: prefix, stream id, DataAligned, HasPTS/HasDTS, PTS/DTS values, Data() vs. the builder's data offset; the 7 ids without optional header: the same bytes (plus cuts to 1,2,3,5 data bytes) must come back from offset 6; 0xBC: prefix and id only; every prefix of the header is executed for panics only; non-trivial = each distinct byte string judged",
+				Rule: "case = stream_id (all 256) x low six bits of the first flag byte (scrambling, priority, alignment, copyright, original: 6 patterns, thorough 36); Check builds every combination of PTS_DTS_flags {00,10,11} x timestamp pairs (7 boundary pairs, thorough 12) x other optional fields {none, ESCR+ES_rate+trick+copy_info+CRC+extension} (thorough: also each field alone and 3 extension variants) x header stuffing {0,1,2,3, up to PES_header_data_length 255} x payload {0,1,5 bytes} x PES_packet_length {consistent, 0, 0xFFFF}; ids with optional header: prefix, stream id, DataAligned, HasPTS/HasDTS, PTS/DTS values, Data() vs. the builder's data offset; the 7 ids without optional header: the same bytes (plus cuts to 1,2,3,5 data bytes) must come back from offset 6; 0xBC: prefix and id only; every prefix of the header is executed for panics, and where it ends behind the timestamps their presence and values are judged; non-trivial = each distinct byte string judged",
 				Gen:  c11GenShapes, Check: witnessEnum(c11CheckShapes, witnessPES), Batch: 1,
 			},
 			&engine.Enum[c11TSCase]{
